@@ -93,6 +93,15 @@ def run(prog, res):
     if f.parent is None:
       hashkeys.check_function(prog, res, f)
   res.floor('T4', 8)
+  from ..rules import fmt
+  for f in prog.all_functions():
+    if f.parent is None:
+      fmt.check_function(prog, res, f)
+  res.floor('F0', 45)
+  from ..rules import spelling as _sp
+  _sp.check_case_agreement(prog, res, ['lattice_lib', 'lattice_layer', 'utils',
+                                       'pwl_calibration_layer', 'premade_lib'])
+  res.floor('V3c', 10)
   res.floor('N0', 250)
   res.floor('V1', 60)
   res.floor('V1s', 3)
